@@ -753,16 +753,36 @@ impl<E: Elem> TableDrv<E> {
                 oplog!(ctx, "leak sub{} after {} (len {})", sub, k, len);
                 match sub {
                     0 => {
+                        // valid and possibly emptied: what the table still holds must be live elements the drain had not handed out
                         let mut d = self.t.drain();
+                        let mut yielded: Vec<(u32, u16)> = Vec::new();
                         for _ in 0..k {
                             if let Some(e) = d.next() {
                                 e.check();
+                                yielded.push((e.id(), e.gen()));
                             }
                         }
                         std::mem::forget(d);
                         ctx.leak_ok = true;
-                        self.model.clear();
-                        crate::check!(self.t.is_empty(), "table after a leaked Drain reports len {}", self.t.len());
+                        let mut kept: Vec<(u32, u16)> = Vec::new();
+                        for e in self.t.iter() {
+                            e.check();
+                            kept.push((e.id(), e.gen()));
+                        }
+                        crate::check!(kept.len() == self.t.len(), "table after a leaked Drain: len() {} but iter() yields {}", self.t.len(), kept.len());
+                        if self.compare {
+                            // as multisets: kept + yielded must fit into what was there before
+                            let mut before = self.model.clone();
+                            for x in yielded.iter().chain(kept.iter()) {
+                                match before.iter().position(|e| e == x) {
+                                    Some(p) => {
+                                        before.swap_remove(p);
+                                    }
+                                    None => crate::viol!("table after a leaked Drain still holds {:?}, which the drain had already handed out (or which was never stored)", x),
+                                }
+                            }
+                        }
+                        self.model = kept;
                     }
                     1 => {
                         let salt = rng.next();
